@@ -11,21 +11,19 @@ From TV Require Model.Block Model.BlockAlg Model.BlockEngine Model.BlockEngineRe
 Import ListNotations.
 
 Section Generic.
-  Variables (S Lay C : Type).
-
-  Lemma gskel_reset (t : gtree S Lay C) : gskel S Lay C (greset S Lay C t) = gskel S Lay C t.
+  Lemma gskel_reset (S Lay C : Type) (t : gtree S Lay C) : gskel S Lay C (greset S Lay C t) = gskel S Lay C t.
   Proof.
     revert t. fix IH 1. intros [s c l n kids]. cbn. f_equal. rewrite map_map.
     induction kids as [|x r IHr]; cbn; [reflexivity|]. rewrite IH, IHr. reflexivity.
   Qed.
 
-  Lemma gheight_reset (t : gtree S Lay C) : gheight S Lay C (greset S Lay C t) = gheight S Lay C t.
+  Lemma gheight_reset (S Lay C : Type) (t : gtree S Lay C) : gheight S Lay C (greset S Lay C t) = gheight S Lay C t.
   Proof. unfold gheight. rewrite gskel_reset. reflexivity. Qed.
 
-  Lemma gheight_set_lay (t : gtree S Lay C) l : gheight S Lay C (gset_lay S Lay C t l) = gheight S Lay C t.
+  Lemma gheight_set_lay (S Lay C : Type) (t : gtree S Lay C) l : gheight S Lay C (gset_lay S Lay C t l) = gheight S Lay C t.
   Proof. unfold gheight. rewrite gskel_set_lay. reflexivity. Qed.
 
-  Lemma gskel_fresh zero_lay cempty (k : sk S) : gskel S Lay C (gfresh S Lay zero_lay C cempty k) = k.
+  Lemma gskel_fresh (S Lay C : Type) zero_lay cempty (k : sk S) : gskel S Lay C (gfresh S Lay zero_lay C cempty k) = k.
   Proof.
     revert k. fix IH 1. intros [s kids]. cbn. f_equal. rewrite map_map.
     induction kids as [|x r IHr]; cbn; [reflexivity|]. rewrite IH, IHr. reflexivity.
